@@ -1,8 +1,19 @@
 // C11 (engine K): the variable-time Lagrange routines of
-// src/backend/w64/lagrange.rs on BOUNDED operand sizes, full unwinding.
-// Included as a child module at the end of lagrange.rs (sees private items).
+// src/backend/w64/lagrange.rs.  Included as a child module at the end of
+// lagrange.rs (sees private items).
 //
-// Stubs: addcarry_u64 / subborrow_u64 -> the portable definitions of
+// Two layers (assume-guarantee, DESIGN section 1):
+//  A. the multi-limb primitives ZIntN::set_add_shifted / set_sub_shifted (the
+//     only expensive ones) are decided exactly, for ALL limb values and ALL
+//     shift counts, against a reference written differently (verif_lag_zint_*);
+//  B. the reduction loops run as they are (real lt / swap / bitlength / ltnw /
+//     is_negative, real loop bodies, real exit tests) on BOUNDED operands with
+//     full unwinding, the two shifted primitives replaced by their layer-A
+//     contract evaluated on 128-bit machine integers.  The replacement checks
+//     its own domain (operands and result are sign-extended 128-bit values) with
+//     assertions, so a run outside the domain cannot pass silently.
+//
+// Other stubs: addcarry_u64 / subborrow_u64 -> the portable definitions of
 // src/backend/w64/mod.rs (Kani has no model of llvm.x86.addcarry.64).
 use super::*;
 
@@ -16,17 +27,148 @@ pub fn st_subborrow_u64(x: u64, y: u64, c: u8) -> (u64, u8) {
     (z as u64, (z >> 127) as u8)
 }
 
-fn bitlen_u128(x: u128) -> u32 {
-    128 - x.leading_zeros()
+
+// ------------------------------------------------------------------------
+// Layer A: self +- (rhs << s) modulo 2^(64 N), reference by bit offsets
+
+// bits [p, p+64) of x (zero outside 0..64N), p may be negative
+fn ref_bits<const N: usize>(x: &[u64; N], p: i64) -> u64 {
+    let q = p.div_euclid(64);
+    let r = p.rem_euclid(64) as u32;
+    let limb = |i: i64| -> u64 {
+        let mut v = 0u64;
+        let mut j = 0usize;
+        while j < N {
+            if j as i64 == i {
+                v = x[j];
+            }
+            j += 1;
+        }
+        v
+    };
+    let lo = limb(q);
+    let hi = limb(q + 1);
+    if r == 0 { lo } else { (lo >> r) | (hi << (64 - r)) }
 }
+
+fn ref_addsub_shifted<const N: usize>(a: &[u64; N], b: &[u64; N], s: u32, sub: bool) -> [u64; N] {
+    let mut d = [0u64; N];
+    let mut cc = 0u128;
+    let mut i = 0usize;
+    while i < N {
+        let w = ref_bits::<N>(b, 64 * (i as i64) - (s as i64));
+        let t = if sub {
+            (a[i] as u128).wrapping_sub(w as u128).wrapping_sub(cc)
+        } else {
+            (a[i] as u128).wrapping_add(w as u128).wrapping_add(cc)
+        };
+        d[i] = t as u64;
+        cc = if sub { (t >> 127) & 1 } else { t >> 64 };
+        i += 1;
+    }
+    d
+}
+
+macro_rules! zint_harness { ($name:ident, $ty:ident, $n:expr) => {
+    // unwind: N + 2 limbs (<= 10)
+    #[kani::proof]
+    #[kani::unwind(10)]
+    #[kani::stub(crate::backend::w64::addcarry_u64, st_addcarry_u64)]
+    #[kani::stub(crate::backend::w64::subborrow_u64, st_subborrow_u64)]
+    fn $name() {
+        let a: [u64; $n] = kani::any();
+        let b: [u64; $n] = kani::any();
+        let s: u32 = kani::any();
+        // the callers pass s, s + 1 and 2 s with s a difference of bit lengths
+        kani::assume(s <= 2 * 64 * $n);
+        let sub: bool = kani::any();
+        let mut x = $ty(a);
+        if sub {
+            x.set_sub_shifted(&$ty(b), s);
+        } else {
+            x.set_add_shifted(&$ty(b), s);
+        }
+        let r = ref_addsub_shifted::<$n>(&a, &b, s, sub);
+        let mut i = 0usize;
+        while i < $n {
+            assert!(x.0[i] == r[i]);
+            i += 1;
+        }
+        kani::cover!(sub && s == 0);
+        kani::cover!(!sub && s > 0 && s < 64);
+        kani::cover!(sub && s >= 64 && (s & 63) == 0 && s < 64 * $n);
+        kani::cover!(!sub && s > 64 && (s & 63) != 0 && s < 64 * $n);
+        kani::cover!(s >= 64 * $n);
+    }
+} }
+
+zint_harness!(verif_lag_zint_128, ZInt128, 2);
+zint_harness!(verif_lag_zint_256, ZInt256, 4);
+zint_harness!(verif_lag_zint_384, ZInt384, 6);
+zint_harness!(verif_lag_zint_512, ZInt512, 8);
+
+// ------------------------------------------------------------------------
+// Layer B replacements of the shifted primitives (contract of layer A on
+// sign-extended 128-bit values; domain asserted)
+
+fn w_get<const N: usize>(x: &[u64; N]) -> i128 {
+    let sx = ((x[1] as i64) >> 63) as u64;
+    let mut i = 2usize;
+    while i < N {
+        assert!(x[i] == sx); // stub domain: a sign-extended 128-bit value
+        i += 1;
+    }
+    ((x[0] as u128) | ((x[1] as u128) << 64)) as i128
+}
+
+fn w_put<const N: usize>(x: &mut [u64; N], v: i128) {
+    x[0] = v as u64;
+    x[1] = (v >> 64) as u64;
+    let sx = (v >> 127) as u64;
+    let mut i = 2usize;
+    while i < N {
+        x[i] = sx;
+        i += 1;
+    }
+}
+
+fn w_addsh<const N: usize>(this: &mut [u64; N], rhs: &[u64; N], s: u32, sub: bool) {
+    if N == 2 {
+        // 128-bit type: exact for every value (arithmetic modulo 2^128)
+        let a = ((this[0] as u128) | ((this[1] as u128) << 64)) as i128;
+        let b = ((rhs[0] as u128) | ((rhs[1] as u128) << 64)) as i128;
+        let t = if s < 128 { ((b as u128) << s) as i128 } else { 0 };
+        let r = if sub { a.wrapping_sub(t) } else { a.wrapping_add(t) };
+        this[0] = r as u64;
+        this[1] = (r >> 64) as u64;
+        return;
+    }
+    let a = w_get::<N>(this);
+    let b = w_get::<N>(rhs);
+    assert!(s < 120); // stub domain
+    let t = ((b as u128) << s) as i128;
+    assert!((t >> s) == b); // stub domain: the shifted operand fits
+    let r = if sub { a.checked_sub(t) } else { a.checked_add(t) };
+    assert!(r.is_some()); // stub domain: the result fits
+    w_put::<N>(this, r.unwrap());
+}
+
+fn st_z128_add(this: &mut ZInt128, rhs: &ZInt128, s: u32) { w_addsh::<2>(&mut this.0, &rhs.0, s, false) }
+fn st_z128_sub(this: &mut ZInt128, rhs: &ZInt128, s: u32) { w_addsh::<2>(&mut this.0, &rhs.0, s, true) }
+fn st_z256_add(this: &mut ZInt256, rhs: &ZInt256, s: u32) { w_addsh::<4>(&mut this.0, &rhs.0, s, false) }
+fn st_z256_sub(this: &mut ZInt256, rhs: &ZInt256, s: u32) { w_addsh::<4>(&mut this.0, &rhs.0, s, true) }
+fn st_z384_add(this: &mut ZInt384, rhs: &ZInt384, s: u32) { w_addsh::<6>(&mut this.0, &rhs.0, s, false) }
+fn st_z384_sub(this: &mut ZInt384, rhs: &ZInt384, s: u32) { w_addsh::<6>(&mut this.0, &rhs.0, s, true) }
+fn st_z512_add(this: &mut ZInt512, rhs: &ZInt512, s: u32) { w_addsh::<8>(&mut this.0, &rhs.0, s, false) }
+fn st_z512_sub(this: &mut ZInt512, rhs: &ZInt512, s: u32) { w_addsh::<8>(&mut this.0, &rhs.0, s, true) }
 
 // ------------------------------------------------------------------------
 // lagrange128_basisconv_vartime(a, b), documented contract (comment above
 // the function): for b >= 1 and a <= b < 2^127 the basis [[a,1],[b,0]] is
 // turned into u = e0*[a,1] + e1*[b,0], v = f0*[a,1] + f1*[b,0], size-reduced,
-// u not longer than v, bl_nv = bit length of N(v).  Checked here for all
+// u not longer than v, bl_nv = bit length of N(v).  Checked for all
 // a <= b < 2^BITS: determinant +-1 (same lattice), N(u) <= N(v),
-// 2|<u,v>| <= N(u), bl_nv exact, no panic/overflow, terminates within the
+// 2|<u,v>| <= N(u), bl_nv exact, no panic/overflow, termination within the
 // unwinding bound.
 
 fn basisconv_contract(bits: u32) {
@@ -34,40 +176,214 @@ fn basisconv_contract(bits: u32) {
     let b: u32 = kani::any();
     kani::assume(b >= 1 && a <= b && (b >> bits) == 0);
     let (e0, e1, f0, f1, bl_nv) = lagrange128_basisconv_vartime(&[a as u64, 0], &[b as u64, 0]);
-    // everything below fits easily in i128 (|e|,|f| <= 2^(bits+1))
-    let (a, b) = (a as i128, b as i128);
-    let (e0, e1, f0, f1) = (e0 as i128, e1 as i128, f0 as i128, f1 as i128);
-    let bound = 1i128 << (bits + 2);
-    assert!(e0.abs() < bound && e1.abs() < bound && f0.abs() < bound && f1.abs() < bound);
-    let det = e0 * f1 - e1 * f0;
+    // reference arithmetic on i64 (all quantities below 2^(2*bits+6) <= 2^54 once
+    // the size assertion holds; wrapping operators so that no overflow check is
+    // posed on harness code)
+    let (a, b) = (a as i64, b as i64);
+    let bound = 1i64 << (bits + 2);
+    assert!(e0 > -bound && e0 < bound && e1 > -bound && e1 < bound);
+    assert!(f0 > -bound && f0 < bound && f1 > -bound && f1 < bound);
+    let mul = |x: i64, y: i64| x.wrapping_mul(y);
+    let add = |x: i64, y: i64| x.wrapping_add(y);
+    let det = add(mul(e0, f1), -mul(e1, f0));
     assert!(det == 1 || det == -1);
-    let u0 = e0 * a + e1 * b;
+    let u0 = add(mul(e0, a), mul(e1, b));
     let u1 = e0;
-    let v0 = f0 * a + f1 * b;
+    let v0 = add(mul(f0, a), mul(f1, b));
     let v1 = f0;
-    let nu = u0 * u0 + u1 * u1;
-    let nv = v0 * v0 + v1 * v1;
-    let sp = u0 * v0 + u1 * v1;
+    assert!(u0 > -bound && u0 < bound && v0 > -bound && v0 < bound);
+    let nu = add(mul(u0, u0), mul(u1, u1));
+    let nv = add(mul(v0, v0), mul(v1, v1));
+    let sp = add(mul(u0, v0), mul(u1, v1));
     assert!(nu <= nv);
-    assert!(2 * sp.abs() <= nu);
-    assert!(bl_nv == bitlen_u128(nv as u128));
+    assert!(add(sp, sp) <= nu && -add(sp, sp) <= nu);
+    assert!(bl_nv == 64 - (nv as u64).leading_zeros());
     kani::cover!(a == b);
     kani::cover!(a == 0);
     kani::cover!(a > 0 && a < b && sp < 0);
     kani::cover!(a > 0 && a < b && sp > 0 && e1 != 0 && f1 != 0);
 }
 
-macro_rules! bc_harness { ($name:ident, $bits:expr) => {
+macro_rules! bc_harness { ($name:ident, $bits:expr, $unw:expr) => {
+    // unwind = BITS + 4 (> every inner limb loop, bound 4 limbs + 1)
     #[kani::proof]
-    #[kani::unwind(5)]
+    #[kani::unwind($unw)]
     #[kani::stub(crate::backend::w64::addcarry_u64, st_addcarry_u64)]
     #[kani::stub(crate::backend::w64::subborrow_u64, st_subborrow_u64)]
+    #[kani::stub(crate::backend::w64::lagrange::ZInt256::set_add_shifted, st_z256_add)]
+    #[kani::stub(crate::backend::w64::lagrange::ZInt256::set_sub_shifted, st_z256_sub)]
     fn $name() {
         basisconv_contract($bits);
     }
 } }
 
-bc_harness!(verif_lag_basisconv_b3, 3);
-bc_harness!(verif_lag_basisconv_b4, 4);
-bc_harness!(verif_lag_basisconv_b5, 5);
-bc_harness!(verif_lag_basisconv_b6, 6);
+bc_harness!(verif_lag_basisconv_b8, 8, 12);
+bc_harness!(verif_lag_basisconv_b12, 12, 16);
+bc_harness!(verif_lag_basisconv_b16, 16, 20);
+bc_harness!(verif_lag_basisconv_b20, 20, 24);
+bc_harness!(verif_lag_basisconv_b24, 24, 28);
+
+// ------------------------------------------------------------------------
+// lagrange128_spec_vartime / lagrange192_spec_vartime(a0, a1, b0, b1):
+// reduce the basis [[a0,a1],[b0,b1]] (signed coordinates) and return the
+// SECOND coordinates of the reduced basis (shorter vector first) and the bit
+// length of the squared norm of the longer one.  The routine's control flow
+// depends on the Gram matrix only, which is invariant under exchanging the two
+// coordinates, so a second call on [[a1,a0],[b1,b0]] returns the FIRST
+// coordinates of the same reduced basis.  Checked for all |coordinates| <
+// 2^BITS with a nonzero determinant: both vectors are in the lattice (Cramer:
+// integer coefficients, determinant +-1), N(u) <= N(v), 2|<u,v>| <= N(u),
+// bit length exact, both calls agree on it.
+
+fn se2(x: i32) -> [u64; 2] {
+    [x as i64 as u64, ((x as i64) >> 63) as u64]
+}
+
+fn se3(x: i32) -> [u64; 3] {
+    [x as i64 as u64, ((x as i64) >> 63) as u64, ((x as i64) >> 63) as u64]
+}
+
+fn lo_i128(x: &[u64; 2]) -> i128 {
+    ((x[0] as u128) | ((x[1] as u128) << 64)) as i128
+}
+
+fn spec_check(bits: u32, a0: i32, a1: i32, b0: i32, b1: i32,
+    r1: ([u64; 2], [u64; 2], u32), r0: ([u64; 2], [u64; 2], u32))
+{
+    let (a0, a1, b0, b1) = (a0 as i64, a1 as i64, b0 as i64, b1 as i64);
+    let mul = |x: i64, y: i64| x.wrapping_mul(y);
+    let add = |x: i64, y: i64| x.wrapping_add(y);
+    let d = add(mul(a0, b1), -mul(a1, b0));
+    let (u1, v1, bl) = (lo_i128(&r1.0), lo_i128(&r1.1), r1.2);
+    let (u0, v0, bl0) = (lo_i128(&r0.0), lo_i128(&r0.1), r0.2);
+    assert!(bl == bl0);
+    let bound = 1i128 << (bits + 2);
+    assert!(u0 > -bound && u0 < bound && u1 > -bound && u1 < bound);
+    assert!(v0 > -bound && v0 < bound && v1 > -bound && v1 < bound);
+    // from here on i64 (everything below 2^(2*bits+6) <= 2^34)
+    let (u0, u1, v0, v1) = (u0 as i64, u1 as i64, v0 as i64, v1 as i64);
+    // u = x*a + y*b, v = z*a + w*b with x = det(u,b)/d, y = det(a,u)/d, ...
+    let xn = add(mul(u0, b1), -mul(u1, b0));
+    let yn = add(mul(a0, u1), -mul(a1, u0));
+    let zn = add(mul(v0, b1), -mul(v1, b0));
+    let wn = add(mul(a0, v1), -mul(a1, v0));
+    assert!(xn % d == 0 && yn % d == 0 && zn % d == 0 && wn % d == 0);
+    let det = add(mul(u0, v1), -mul(u1, v0));
+    assert!(det == d || det == -d);
+    let nu = add(mul(u0, u0), mul(u1, u1));
+    let nv = add(mul(v0, v0), mul(v1, v1));
+    let sp = add(mul(u0, v0), mul(u1, v1));
+    assert!(nu <= nv);
+    assert!(add(sp, sp) <= nu && -add(sp, sp) <= nu);
+    assert!(bl == 64 - (nv as u64).leading_zeros());
+    kani::cover!(sp < 0 && nu < nv);
+    kani::cover!(sp > 0 && d < 0);
+    kani::cover!(nu == nv);
+}
+
+fn spec_inputs(bits: u32) -> (i32, i32, i32, i32) {
+    let a0: i32 = kani::any();
+    let a1: i32 = kani::any();
+    let b0: i32 = kani::any();
+    let b1: i32 = kani::any();
+    let lim = 1i32 << bits;
+    kani::assume(a0 > -lim && a0 < lim && a1 > -lim && a1 < lim);
+    kani::assume(b0 > -lim && b0 < lim && b1 > -lim && b1 < lim);
+    kani::assume((a0 as i64) * (b1 as i64) != (a1 as i64) * (b0 as i64));
+    (a0, a1, b0, b1)
+}
+
+macro_rules! spec_harness { ($n128:ident, $n192:ident, $bits:expr, $unw:expr) => {
+    // unwind = BITS + 8
+    #[kani::proof]
+    #[kani::unwind($unw)]
+    #[kani::stub(crate::backend::w64::addcarry_u64, st_addcarry_u64)]
+    #[kani::stub(crate::backend::w64::subborrow_u64, st_subborrow_u64)]
+    #[kani::stub(crate::backend::w64::lagrange::ZInt128::set_add_shifted, st_z128_add)]
+    #[kani::stub(crate::backend::w64::lagrange::ZInt128::set_sub_shifted, st_z128_sub)]
+    #[kani::stub(crate::backend::w64::lagrange::ZInt256::set_add_shifted, st_z256_add)]
+    #[kani::stub(crate::backend::w64::lagrange::ZInt256::set_sub_shifted, st_z256_sub)]
+    fn $n128() {
+        let (a0, a1, b0, b1) = spec_inputs($bits);
+        let r1 = lagrange128_spec_vartime(&se2(a0), &se2(a1), &se2(b0), &se2(b1));
+        let r0 = lagrange128_spec_vartime(&se2(a1), &se2(a0), &se2(b1), &se2(b0));
+        spec_check($bits, a0, a1, b0, b1, r1, r0);
+    }
+
+    #[kani::proof]
+    #[kani::unwind($unw)]
+    #[kani::stub(crate::backend::w64::addcarry_u64, st_addcarry_u64)]
+    #[kani::stub(crate::backend::w64::subborrow_u64, st_subborrow_u64)]
+    #[kani::stub(crate::backend::w64::lagrange::ZInt128::set_add_shifted, st_z128_add)]
+    #[kani::stub(crate::backend::w64::lagrange::ZInt128::set_sub_shifted, st_z128_sub)]
+    #[kani::stub(crate::backend::w64::lagrange::ZInt384::set_add_shifted, st_z384_add)]
+    #[kani::stub(crate::backend::w64::lagrange::ZInt384::set_sub_shifted, st_z384_sub)]
+    fn $n192() {
+        let (a0, a1, b0, b1) = spec_inputs($bits);
+        let r1 = lagrange192_spec_vartime(&se3(a0), &se3(a1), &se3(b0), &se3(b1));
+        let r0 = lagrange192_spec_vartime(&se3(a1), &se3(a0), &se3(b1), &se3(b0));
+        spec_check($bits, a0, a1, b0, b1, r1, r0);
+    }
+} }
+
+spec_harness!(verif_lag_spec128_b6, verif_lag_spec192_b6, 6, 14);
+spec_harness!(verif_lag_spec128_b10, verif_lag_spec192_b10, 10, 18);
+spec_harness!(verif_lag_spec128_b14, verif_lag_spec192_b14, 14, 22);
+
+// ------------------------------------------------------------------------
+// lagrange256_vartime(k, n, max_bitlen): for 0 <= k < n returns (v0, v1), a
+// nonzero vector of the lattice [[n,0],[k,1]] (v0 = v1*k mod n) with
+// N(v) < 2^max_bitlen when the routine finds one; otherwise it stops at a
+// shortest vector ("stuck" exit).  Checked for all k < n < 2^BITS, n odd, and
+// all max_bitlen <= 2*BITS + 2: membership, v != 0, and either the requested
+// length or the Hermite bound 3 N(v)^2 <= 4 n^2 of a shortest vector;
+// termination within the unwinding bound.
+
+fn l256_contract(bits: u32) {
+    let k: u32 = kani::any();
+    let n: u32 = kani::any();
+    let mb: u32 = kani::any();
+    kani::assume(n >= 3 && (n & 1) == 1 && k < n && (n >> bits) == 0);
+    kani::assume(mb <= 2 * bits + 2);
+    let (v0, v1) = lagrange256_vartime(&[k as u64, 0, 0, 0], &[n as u64, 0, 0, 0], mb);
+    let (v0, v1) = (lo_i128(&v0), lo_i128(&v1));
+    let bound = 1i128 << (bits + 2);
+    assert!(v0 > -bound && v0 < bound && v1 > -bound && v1 < bound);
+    assert!(v0 != 0 || v1 != 0);
+    // from here on i64 (bits <= 14: N(v)^2 and n^2 stay below 2^62)
+    let (v0, v1, k, n) = (v0 as i64, v1 as i64, k as i64, n as i64);
+    let mul = |x: i64, y: i64| x.wrapping_mul(y);
+    let add = |x: i64, y: i64| x.wrapping_add(y);
+    // lattice membership
+    assert!(add(v0, -mul(v1, k)) % n == 0);
+    let nv = add(mul(v0, v0), mul(v1, v1));
+    let short = 64 - (nv as u64).leading_zeros() <= mb;
+    // requested length reached, or a shortest vector: 3 N(v)^2 <= 4 n^2 (Hermite)
+    let lhs = (nv as u128) * (nv as u128) * 3;
+    let rhs = (n as u128) * (n as u128) * 4;
+    assert!(short || lhs <= rhs);
+    kani::cover!(short && v1 < 0);
+    kani::cover!(!short);
+    kani::cover!(short && k == 0);
+}
+
+macro_rules! l256_harness { ($name:ident, $bits:expr, $unw:expr) => {
+    // unwind = BITS + 6 (>= 10: 8 limbs of ZInt512)
+    #[kani::proof]
+    #[kani::unwind($unw)]
+    #[kani::stub(crate::backend::w64::addcarry_u64, st_addcarry_u64)]
+    #[kani::stub(crate::backend::w64::subborrow_u64, st_subborrow_u64)]
+    #[kani::stub(crate::backend::w64::lagrange::ZInt128::set_add_shifted, st_z128_add)]
+    #[kani::stub(crate::backend::w64::lagrange::ZInt128::set_sub_shifted, st_z128_sub)]
+    #[kani::stub(crate::backend::w64::lagrange::ZInt384::set_add_shifted, st_z384_add)]
+    #[kani::stub(crate::backend::w64::lagrange::ZInt384::set_sub_shifted, st_z384_sub)]
+    #[kani::stub(crate::backend::w64::lagrange::ZInt512::set_add_shifted, st_z512_add)]
+    #[kani::stub(crate::backend::w64::lagrange::ZInt512::set_sub_shifted, st_z512_sub)]
+    fn $name() {
+        l256_contract($bits);
+    }
+} }
+
+l256_harness!(verif_lag_l256_b8, 8, 14);
+l256_harness!(verif_lag_l256_b12, 12, 18);
+l256_harness!(verif_lag_l256_b14, 14, 20);
